@@ -130,9 +130,10 @@ func main() {
 					kind := "data"
 					ts := typeString(fld.Type)
 					switch {
-					case strings.Contains(ts, "sync.RWMutex"):
+					case strings.Contains(ts, "sync.RWMutex"), strings.Contains(ts, "verifhook.RWMutex"):
+						// verifhook.Mutex / RWMutex are the sync types (aliases) unless the verif tag is set
 						kind = "lock"
-					case strings.Contains(ts, "sync.Mutex"):
+					case strings.Contains(ts, "sync.Mutex"), strings.Contains(ts, "verifhook.Mutex"):
 						kind = "lock"
 					case strings.HasPrefix(ts, "chan"):
 						kind = "chan"
